@@ -37,6 +37,13 @@ impl<'a> SendTransactionsProofProcess<'a> {
 
     pub(crate) fn execute(self) -> Status {
         let status = self.execute_internally();
+        if !status.is_ok() {
+            // A rejected response delivered nothing, the request is dropped below, so the
+            // in-flight hashes have to be offered to another peer.
+            self.protocol
+                .peers()
+                .mark_fetching_txs_timeout(self.peer_index);
+        }
         self.protocol
             .peers()
             .update_txs_proof_request(self.peer_index, None);
